@@ -21,6 +21,7 @@ def f3(): pass
 
 
 FNS = {"f1": f1, "f2": f2, "f3": f3}
+_KEEP = []      # dispatch objects are kept alive: their weakref clean-up callback is not part of what is checked
 LISTS = [[], ["f1"], ["f2"], ["f1", "f2"], ["f3", "f1"]]
 
 
@@ -38,6 +39,7 @@ class UpdateSubclass:
 
     def build(self, desc):
         d = object.__new__(_ClsLevelDispatch)
+        _KEEP.append(d)
         d._clslevel = {}
         for n, l in desc["present"].items():
             d._clslevel[CLASSES[n]] = collections.deque(FNS[x] for x in l)
